@@ -188,7 +188,7 @@ def build():
                  cbmc_args=["--slice-formula"], timeout=600, mem_gb=8,
                  note="the source defines binson_write_name, which the header renames to binson_write_string (the symbol under contract)"))
     e1("binson_parser_to_writer", {"C11": "*", "C04": "*", "C09": "*", "C18": "*"}, harness=HW2,
-       replace=["binson_parser_get_raw", "binson_write_raw"], timeout=900)
+       replace=["binson_parser_get_raw", "binson_write_raw"], timeout=900, mem=14)
     e1("binson_writer_verify", {"C05": "*", "C17": "*", "C18": "*"}, harness=HW2,
        replace=["binson_parser_init_object", "binson_parser_verify"], timeout=900,
        note="precondition counter <= capacity: after an overflow the function hands the parser a length beyond the buffer (observation recorded in DESIGN.md 10.10)")
